@@ -181,6 +181,22 @@ def _on_surface_indices(g_all: "np.ndarray", tol: float, direction: "Literal[1, 
     return np.nonzero(base & mask)[0]
 
 
+def _last_sample_on_surface(g_all: "np.ndarray", tol: float, direction: "Literal[1, -1, None]") -> bool:
+    """Tell whether the final sample lies on the surface and passes the direction filter.
+
+    :func:`_on_surface_indices` only examines the left end of each segment, so the
+    last sample of a trajectory is never seen by it. The last sample has no next
+    sample; only the previous one is consulted for the direction filter.
+    """
+    if g_all.shape[0] < 2 or not (abs(g_all[-1]) < tol):
+        return False
+    if direction is None:
+        return True
+    if direction == 1:
+        return bool(g_all[-2] <= 0.0)
+    return bool(g_all[-2] >= 0.0)
+
+
 def _crossing_indices_and_alpha(g0: "np.ndarray", g1: "np.ndarray", *, on_mask: "np.ndarray", direction: "Literal[1, -1, None]") -> tuple["np.ndarray", "np.ndarray"]:
     """Find crossing indices and interpolation parameters.
 
@@ -646,6 +662,12 @@ def _detect_with_segment_refine(
             cand_states.append(xh.astype(float, copy=True))
             seg_order_list.append(k)
 
+    # Final sample on the surface (duplicates of a crossing ending there are removed by the time dedup)
+    if _last_sample_on_surface(g_all, tol_on_surface, event.direction):
+        cand_times.append(float(times[-1]))
+        cand_states.append(states[-1].astype(float, copy=True))
+        seg_order_list.append(N - 1)
+
     seg_order = np.asarray(seg_order_list, dtype=int) if seg_order_list else np.empty((0,), dtype=int)
     return _order_and_dedup_hits(
         cand_times,
@@ -805,10 +827,17 @@ class _SynodicDetectionBackend(_ReturnMapBackend):
             cand_times.extend(thit.tolist())
             cand_states.extend([row.astype(float, copy=True) for row in xhit])
 
+        # Final sample on the surface (duplicates of a crossing ending there are removed by the time dedup)
+        last_idx = np.empty((0,), dtype=int)
+        if _last_sample_on_surface(g_all, tol_on_surface, event.direction):
+            cand_times.append(float(times[-1]))
+            cand_states.append(states[-1].astype(float, copy=True))
+            last_idx = np.array([times.shape[0] - 1], dtype=int)
+
         if not cand_times:
             return []
 
-        seg_order = np.concatenate((on_idx, cr_idx)) if on_idx.size or cr_idx.size else np.empty((0,), dtype=int)
+        seg_order = np.concatenate((on_idx, cr_idx, last_idx)).astype(int)
         return _order_and_dedup_hits(
             cand_times,
             cand_states,
